@@ -522,6 +522,10 @@ def concatenate(arrays, axis=0, _no_check=False, align=False, **kwargs):
         axis = arrays[0].dims.index(axis)
     dim = arrays[0].dims[axis]
 
+    # match dimensions by name, not by position
+    dims = arrays[0].dims
+    arrays = [a if a.dims == dims or set(a.dims) != set(dims) else a.transpose(dims) for a in arrays]
+
     # align secondary axes prior to concatenate
     # TODO: just encourage user to use align outside this function
     # and remove argument passing
